@@ -202,6 +202,12 @@ def build(cfg, values=None):
         # the linear matrices were evaluated (harness shared with C16)
         from . import c16
         return c16.build(dict(cfg, variant='split'), values)
+    if cfg.get('shell_full_c'):
+        # complete shells: the amplitude vector handed to calc_full_c (the entry of every field query) is not modified and the
+        # same request gives the same vector again (harness shared with C18)
+        from . import c18
+        obs, assumptions, info = c18.build(dict(cfg, variant='partition'), values)
+        return [o for o in obs if o[0].startswith(('caller-', 'full-c-of-full-vector-call'))], assumptions, info
     if cfg.get('bay'):
         return build_bay(cfg, values)
     model, m, n = cfg['model'], cfg['m'], cfg['n']
@@ -338,6 +344,9 @@ def configs(tier, seed):
         for cone in (True, False):
             out.append({'shell': True, 'model': model, 'mn': (2, 2, 1), 's': 1, 'cone': cone, 'm': 2, 'n': 1, 'variant': 'shell-repeated-evaluation',
                         'group': 'shell-repeated-evaluation:%s' % model, 'first': '-', 'redef': 'none', 'last': '_calc_linear_matrices', 'timeout_ms': 180000})
+    for pd in ((True, True, True), (True, False, True), (False, True, True)):
+        out.append({'shell_full_c': True, 'pd': pd, 'mn': (1, 1, 1), 'm': 1, 'n': 1, 'variant': 'shell-amplitude-vector', 'first': '-', 'redef': 'none', 'last': 'calc_full_c',
+                    'group': 'shell-amplitude-vector:pdC=%d,pdT=%d' % pd[:2]})
     # stiffened bay with a 1-D blade stiffener (base + flange): redefinition of stiffener attributes between two evaluations
     st = [('B1', {'base': True})]
     for last in ('k0', 'kM', 'kG0'):
@@ -360,7 +369,7 @@ def main():
     run.bounds = {'history_length': '<= 2 calls + 1 redefinition', 'alphabet': sorted({c['last'] for c in cf}), 'redefinitions': sorted(REDEF), 'models': sorted({str(c.get('model', 'stiffened bay (BladeStiff1D)')) for c in cf}),
                   'configurations': len(cf)}
     run.assume('series orders m=2, n=1', 'eigen-solvers stubbed: the matrices handed to the solver are the observable', 'thread-count independence: only what is arithmetic (chunk partitions, C11)')
-    run.encoded('compmech/conecyl/conecyl.py', 'ConeCyl._calc_linear_matrices (repeated evaluation)')
+    run.encoded('compmech/conecyl/conecyl.py', 'ConeCyl._calc_linear_matrices (repeated evaluation), calc_full_c (caller vector unchanged, repeated request)')
     run.encoded('compmech/stiffpanelbay/stiffpanelbay.py', 'StiffPanelBay.calc_k0, calc_kG0, calc_kM (after re-definition of a stiffener)')
     run.encoded('compmech/stiffener/bladestiff1d.py', 'BladeStiff1D._rebuild, calc_k0, calc_kG0, calc_kM')
     run.outside = ['OpenMP races', 'ConeCyl histories beyond repeated evaluation of the linear matrices', 'plotting', 'histories longer than the bound']
